@@ -134,6 +134,11 @@ def build(r):
             perm[-1], perm[-2] = perm[-2], perm[-1]
             maps[1] = f"affine_map<({dims}) -> ({', '.join(f'd{i}' for i in perm)})>"
             shapes[1] = [shape[i] for i in perm]
+        elif r.get("neg_off"):
+            # halo-style read with a negative constant term (C03 only: the scheduler must keep it; C02 never generates it because the
+            # access leaves the buffer at the origin)
+            last = f"d{rank - 1} - {int(r['neg_off'])}"
+            maps[1] = f"affine_map<({dims}) -> ({', '.join([f'd{i}' for i in range(rank - 1)] + [last])})>"
         elif r.get("const_row") is not None:
             # the second input is one row of a larger buffer: a dimension-independent, non-zero constant index
             c, rows = r["const_row"]
